@@ -121,9 +121,11 @@ def emitLoop (e : Enc) (tot : Nat) : Nat → EncSt → Option (List Sym)
   | fuel+1, st =>
     let st := readWindow e (e.w + 1) st
     if st.win.isEmpty then
-      if st.sent == 0 then
+      if st.sent == 0 && tot == 0 then
         -- "Empty file ? Send a pkt containing close object flag" (B regardless of closabled_object)
         some [{ sbn := 0, esi := 0, close := true }]
+      -- no block of a NON-empty object could be created (Raptor first block of 2 / 3 symbols): nothing is sent
+      -- (/repo 6808824; before: debug_assert panic, in release the empty-object packet)
       else some []
     else
       let idx := if st.idx ≥ st.win.length then 0 else st.idx
@@ -155,8 +157,8 @@ def encInit : EncSt := { next := 0, readEnd := false, win := [], idx := 0, srcSe
 /-- the `(sbn, esi, B)` sequence of one transfer -/
 def emitTransfer (e : Enc) : Option (List Sym) := emitLoop e (totalSrc e.ks) (emitFuel e) encInit
 
-/-- does the very first `read` hit `debug_assert!(transfer_length == 0)` (blockencoder.rs:81)?
-    That is: no block could be created although the object is not empty. -/
+/-- no block could be created although the object is not empty: the transfer emits NOTHING (since /repo 6808824;
+    before, the very first `read` hit `debug_assert!(transfer_length == 0)`, blockencoder.rs:81 - hence the name). -/
 def senderPanics (e : Enc) : Bool :=
   match e.ks[0]? with
   | none => false
